@@ -160,6 +160,7 @@ long vp_ghost_fdwaiters(void);
 long vp_ghost_live_fibers(void);
 uint64_t vp_ghost_ticks(void);
 int vp_ghost_quiescent(void);
+int vp_ghost_idle_but_queued(void);
 void vp_ghost_dump(FILE* f, int max);
 void vp_ghost_report_counters(void);
 // C10 support: maximum number of times a queued fiber was bypassed on its scheduler
